@@ -94,15 +94,17 @@ def expandWords (sec : Int) (nsec : Nat) : List Word → Nat → List Act
     ((List.range k).flatMap fun i => [Act.wall (unixNorm sec (nsec + off + (i + 1) * d)), .now g, .inc g])
       ++ expandWords sec nsec ws (off + k * d)
 
+/-- one step of the monitors below: `acc.2` keeps, per goroutine, the timestamp of its latest result -/
+def monStep (lo hi : Nat) (acc : Bool × List (Nat × Nat)) (r : Ret) : Bool × List (Nat × Nat) :=
+  (acc.1 && decide (lo ≤ timestamp r.uuid) && decide (timestamp r.uuid ≤ hi) &&
+     decide (((acc.2.find? (·.1 == r.g)).map (·.2)).getD 0 ≤ timestamp r.uuid),
+   (r.g, timestamp r.uuid) :: acc.2.filter (·.1 != r.g))
+
 /-- the two monitors of `C19_conc_goroutine_timestamps_monotone`, evaluated on a run's results: every timestamp lies in
     `[tick start, tick (wall at the end)]`, and the timestamps of one goroutine never decrease in return order
-    (`last` keeps one entry per goroutine) -/
+    (`C19_sched_monitors_ok`: on a model run under a wall clock that never steps back the answer is `true`) -/
 def monitorsOk (t0 wallEnd : Int × Nat) (out : List Ret) : Bool :=
-  (out.foldl (fun (acc : Bool × List (Nat × Nat)) r =>
-      let ts := timestamp r.uuid
-      let prev := ((acc.2.find? (·.1 == r.g)).map (·.2)).getD 0
-      (acc.1 && decide (tick t0 ≤ ts) && decide (ts ≤ tick wallEnd) && decide (prev ≤ ts),
-       (r.g, ts) :: acc.2.filter (·.1 != r.g))) (true, [])).1
+  (out.foldl (monStep (tick t0) (tick wallEnd)) (true, [])).1
 
 /-- FNV-style fold over all bytes of all results, in return order (so that long runs compare in one number) -/
 def foldHash (us : List (List UInt8)) : Nat :=
